@@ -5,7 +5,8 @@ packages.  For every design Coq computes the MODEL's package and compares it wit
 net partition on the terminals + leaf devices (the observables of C01), well-formedness of the model's package
 (C06E), and - as information - whether the two packages are syntactically identical (module order, signal
 order, names, widths, port directions, instances, parameters, targets).
-Codes (Corr/C01E.v): 0 identical, 7 same nets but not identical, 2 tie broken, 4 model contradicts its theorems, 3 harness.
+Codes (Corr/C01E.v): 0 identical, 7 same nets but not identical, 1/6 implementation violates the property, 2 tie broken,
+4 model contradicts its theorems, 3 harness.
 """
 import json, re
 from . import core, design as D
@@ -152,17 +153,55 @@ def corpus():
     ]
 
 
+def array_ref_designs(seed, n):
+    """Designs of the shared generator in which array ports take references (per-element and broadcast) - a shape the
+    C01 generator never produces, but ResolvePortRefs + ArrayFlattener handle (and the model models)."""
+    out, k, tried = [], 0, 0
+    while len(out) < n and tried < 40 * n:
+        r = core.rng(seed, "C01", "model-arrayrefs", k)
+        k += 1
+        tried += 1
+        d = D.gen_design(r, size=r.choice([1, 2, 2, 3]))
+        changed = False
+        for md in d["mods"]:
+            singles = [x for x in md["insts"] if x["n"] == 0]
+            for x in md["insts"]:
+                if x["n"] == 0:
+                    continue
+                ports = dict(D.target_ports(d, x["of"]))
+                for c in x["conns"]:
+                    if c[1][0] == "nc" or r.random() < 0.4:
+                        continue
+                    w = ports[c[0]]
+                    # a port of a single instance, of the element width (broadcast) or n times as wide (per element),
+                    # that is not no-connected
+                    cands = []
+                    for y in singles:
+                        yconns = dict((p, e) for p, e in y["conns"])
+                        for q, qw in D.target_ports(d, y["of"]):
+                            if qw in (w, w * x["n"]) and not (q in yconns and yconns[q][0] == "nc"):
+                                cands.append((y["name"], q))
+                    if cands:
+                        y, q = r.choice(cands)
+                        c[1] = ["ref", y, q]
+                        changed = True
+        if changed and len(D.terminals(d)[0]) <= 120:
+            out.append(d)
+    return out
+
+
 def run_tie(run, tier, seed, designs, outs):
     quick = tier == "quick"
     if not quick:
         # the in-Coq evaluation of three net partitions per design is the costly part: the thorough tier ties a prefix
         designs, outs = designs[:2500], outs[:2500]
-    corp = corpus()
+    corp = corpus() + [(d, None) for d in array_ref_designs(seed, 40 if quick else 400)]
     extra = [d for d, _ in corp]
     extra_outs = core.run_worker_sharded("c01", [dict(design=d, spice=False) for d in extra])
     all_d = extra + list(designs)
     all_o = list(extra_outs) + list(outs)
     names = [en for _, en in corp] + [None] * len(designs)
+    n_arrayrefs = len(corp) - len(corpus())
     cases = [c_case(d, o, en) for d, o, en in zip(all_d, all_o, names)]
     bad = dict(core.coq_eval_cases("C01", "model", IMPORTS, "c01e_case", cases, "run_cases chk_c01e", chunk=40))
     n = len(all_d)
@@ -175,24 +214,25 @@ def run_tie(run, tier, seed, designs, outs):
     run.stream("model", n, len({json.dumps(d) for d in all_d if sum(D.features(d).values()) >= 3}),
                model_nets_equal_impl=same_nets, model_pkg_identical_to_impl=ident,
                model_pkg_differs_only_in_unfixed_details=sum(1 for c in bad.values() if c == 7),
-               corpus=len(extra), features=feats,
+               corpus=len(extra) - n_arrayrefs, array_reference_designs=n_arrayrefs, features=feats,
                rule="non-trivial = at least 3 of {refs, no-connects, arrays, slices, concats, hierarchy, external modules, negative steps}; distinct by design",
                compared="Coq computes elab_export_model(design) and compares with the implementation's package: net labels on all "
                         "terminals, leaf devices, wf_pkg of the model's package; 'identical' = equal as packages up to the module-name "
                         "qualifier of the builder, the package domain and literals")
     order = sorted((i for i, c in bad.items() if c != 7), key=lambda i: len(json.dumps(all_d[i])))
-    rejected = [i for i in order if all_o[i]["pkg"] is None]
-    for i in rejected[:2]:
-        run.violation("C01:design:" + json.dumps(all_d[i], sort_keys=True),
-                      f"valid design rejected: {json.dumps(all_o[i]['err'])[:400]}",
-                      dict(kind="impl-violates-spec", stream="model", case=all_d[i], impl=all_o[i], failing_cases=len(rejected),
-                           reproducer="build the design with harness/impl/designlib.Builder, h.to_proto"))
-    rest = [i for i in order if i not in rejected]
+    v1 = [i for i in order if bad[i] in (1, 6)]
+    for i in v1[:2]:
+        what = ("valid design rejected" if bad[i] == 6 else
+                "exported package differs from the written design (net partition / leaf devices); the model's package does not")
+        run.violation("C01:design:" + json.dumps(all_d[i], sort_keys=True), f"{what}: {json.dumps(all_o[i]['err'])[:400]}",
+                      dict(kind="impl-violates-spec", stream="model", case=all_d[i], impl=all_o[i], failing_cases=len(v1),
+                           reproducer="build the design with harness/impl/designlib.Builder, h.to_proto, compare nets"))
+    rest = [i for i in order if bad[i] not in (1, 6)]
     for i in rest[:2]:
         c = bad[i]
-        what = {2: "pipeline model and implementation disagree (nets / leaf devices / acceptance) although the property holds",
+        what = {2: "the pipeline model rejects a design on which the implementation satisfies the property (tie broken)",
                 4: "the model's package contradicts C01E_end_to_end / C06E_export_wf (checker defect)",
-                3: "generated design is not valid by Spec/WfDesign or terminal list inconsistent (harness defect)"}.get(c, f"code {c}")
+                3: "generated design is not valid by Spec/WfDesign, outside frag_ok / xinfo_ok, or terminal list inconsistent (harness defect)"}.get(c, f"code {c}")
         run.violation(f"C01:model:{c}:" + json.dumps(all_d[i], sort_keys=True), what,
                       dict(kind="tie-broken" if c == 2 else "checker-inconsistency", code=c, stream="model", case=all_d[i],
                            impl=all_o[i], failing_cases=len(rest)), found_input=False)
